@@ -529,6 +529,9 @@ func ZZ_C01_interference() {
 			"a = []int64{1}; a + [nil]", "a = []int64{1}; a += [nil]", "a = []string{\"x\"}; a + [nil]", "a = [][]int64{[1]}; a + [[nil]]", "a = [][]int64{[1]}; a + [nil]", "a = []int64{1}; a + nil", "a = make([]int64, 0); a + [nil, 1]",
 			"\"ab\" * 4611686018427387904", "\"ab\" * 9223372036854775807", "\"\" * 9223372036854775807", "\"a\" * -1",
 			"a = make([]map[string]int64, 1); a[0].k = 1; a", "a = make([]map[string]int64, 1); a[0][\"k\"]", "a = make([][]int64, 1); a[0][0]", "a = make([][]int64, 1); a[0] + 1", "a = make([]*int64, 1); *a[0]", "a = make([]*int64, 1); *a[0] = 1",
+			"b = make([]*float64, 1); b[0] = make([]*int64, 1)[0]; b", "c = make(chan *float64, 1); c <- make([]*int64, 1)[0]", "m = make(map[string]*float64); m[\"a\"] = make([]*int64, 1)[0]",
+			"m = make(map[*float64]string); m[make([]*int64, 1)[0]] = \"a\"", "x = reterr(); x.Error()", "reterr().Error()", "x = reterr(); x.Error", "go reterr().Error()", "defer reterr().Error()",
+			"x = reterr(); x.nosuch = 1", "var a, b = 1; [a, b]", "var a, b, c = 1, 2; c.x",
 			"a = make([]chan int64, 1); close(a[0])", "a = make([]*int64, 1); a[0].x", "a = make([]*int64, 1); delete(a[0], 1)", "a = make([]*int64, 1); for x in a[0] { }", "a = make([]*int64, 1); len(a[0])", "a = make([]*int64, 1); a[0][0]",
 			"a = make([]*int64, 1); a[0][0] = 1", "a = make([]*int64, 1); a[0]()", "a = make([]*int64, 1); f = func(x...) { return x }; f(a[0]...)", "a = make([]*int64, 1); 1 in a[0]", "a = make([]*int64, 1); make([]int64, a[0])"}
 		oi := zz.Choose(len(ops))
@@ -579,6 +582,7 @@ func ZZ_C01_interference() {
 	}
 	e := env.NewEnv()
 	e.Define("range", func(n int64) []int64 { return make([]int64, n) })
+	e.Define("reterr", func() error { return nil }) // a Go function over script values whose result is a nil error
 	e.Define("len", func(v interface{}) int64 {
 		rv := reflect.ValueOf(v)
 		switch rv.Kind() {
